@@ -8,7 +8,7 @@ rsync -a --exclude .git /repo/ $s/ || exit 2
 (cd $s && git init -q . 2>/dev/null; git -C $s apply "$d") || { echo "patch does not apply"; rm -rf $s; exit 2; }
 for c in "$@"; do
   out=$(cd /verif && VERIF_REPO=$s ./check $c $tier 2>&1)
-  if echo "$out" | grep -q "^VIOLATION property=$c"; then echo "$c: CAUGHT: $(echo "$out" | grep signature | head -3 | tr '\n' ' ')"; else echo "$c: missed ($(echo "$out" | grep "^$c" | head -1))"; fi
+  if echo "$out" | grep -q "^VIOLATION property=$c"; then echo "[$(basename $(dirname $d))/$(basename $d)] $c: CAUGHT: $(echo "$out" | grep signature | head -3 | tr '\n' ' ')"; else echo "[$(basename $(dirname $d))/$(basename $d)] $c: missed ($(echo "$out" | grep "^$c" | head -1))"; fi
 done
 tag=$(python3 -c "import hashlib,sys;print(hashlib.sha1(sys.argv[1].encode()).hexdigest()[:8])" $s)
 rm -rf $s /verif/.build/*.$tag.* /verif/.build/go.$tag.*
